@@ -76,13 +76,13 @@ impl Http2FingerprintExtractor {
 
         self.buffer.extend_from_slice(data);
 
-        // Skip HTTP/2 connection preface
-        let start_offset =
-            if self.parsed_offset == 0 && self.buffer.starts_with(HTTP2_CONNECTION_PREFACE) {
-                HTTP2_CONNECTION_PREFACE.len()
-            } else {
-                self.parsed_offset
-            };
+        // Skip HTTP/2 connection preface. Every call looks at all frames received so far: the
+        // fingerprint also depends on frames that precede the SETTINGS frame.
+        let start_offset = if self.buffer.starts_with(HTTP2_CONNECTION_PREFACE) {
+            HTTP2_CONNECTION_PREFACE.len()
+        } else {
+            0
+        };
 
         let frame_data = &self.buffer[start_offset..];
 
